@@ -36,16 +36,20 @@ package kmipclient
 //@   ghost cmwErr = e
 
 
-//@ spec clientOK(c *Client) bool = c != nil && c.lock != nil && c.dialer != nil && lockHeld == 0 && (0 < len(c.middlewares) ==> c.middlewares[0] != nil)
+// closedInv: a client that has been closed keeps no open connection attached
+//@ ghostvar clientClosed bool
+//@ ghostvar connClosed bool
+//@ spec closedInv(c *Client) bool = clientClosed && c.conn != nil ==> connClosed
+//@ spec clientOK(c *Client) bool = c != nil && c.lock != nil && c.dialer != nil && lockHeld == 0 && (0 < len(c.middlewares) ==> c.middlewares[0] != nil) && closedInv(c)
 
 //@ func (*Client).nextAt$1
-//@   requires c != nil && c.lock != nil && c.dialer != nil && lockHeld == 0 && 0 <= i && (i < len(c.middlewares) ==> c.middlewares[i] != nil)
+//@   requires c != nil && c.lock != nil && c.dialer != nil && lockHeld == 0 && 0 <= i && (i < len(c.middlewares) ==> c.middlewares[i] != nil) && closedInv(c)
 //@   ensures i < len(c.middlewares) ==> cmwCalls == old(cmwCalls)+1 && rtCalls == old(rtCalls) && cmwSelf == c.middlewares[i] && cmwCtx == ctx && cmwMsg == req && r0 == cmwRet && r1 == cmwErr
 //@   ensures i < len(c.middlewares) ==> isclosure(cmwNext, "(*Client).nextAt$1") && capt(cmwNext, "i") == i+1 && capt(cmwNext, "c") == c
 //@   ensures i >= len(c.middlewares) ==> cmwCalls == old(cmwCalls) && rtCalls == old(rtCalls)+1 && rtCtx == ctx && rtMsg == req && r0 == rtRet && r1 == rtErr
 //@   ensures i == old(i) && c == old(c)
 //@   ensures r1 == nil ==> r0 != nil
-//@   ghostmod cmwCalls, cmwSelf, cmwNext, cmwCtx, cmwMsg, cmwRet, cmwErr, rtCalls, rtCtx, rtMsg, rtRet, rtErr, transmissions, dials, lastErrRetryable, connBroken
+//@   ghostmod cmwCalls, cmwSelf, cmwNext, cmwCtx, cmwMsg, cmwRet, cmwErr, rtCalls, rtCtx, rtMsg, rtRet, rtErr, transmissions, dials, lastErrRetryable, connBroken, connClosed
 //@   modifies c.conn
 
 // Roundtrip enters the chain at stage 0 with its own arguments.
@@ -54,7 +58,7 @@ package kmipclient
 //@   ensures 0 < len(c.middlewares) ==> cmwCalls == old(cmwCalls)+1 && cmwSelf == c.middlewares[0] && cmwCtx == ctx && cmwMsg == msg && r0 == cmwRet && r1 == cmwErr
 //@   ensures len(c.middlewares) == 0 ==> rtCalls == old(rtCalls)+1 && cmwCalls == old(cmwCalls) && rtCtx == ctx && rtMsg == msg && r0 == rtRet && r1 == rtErr
 //@   ensures r1 == nil ==> r0 != nil
-//@   ghostmod cmwCalls, cmwSelf, cmwNext, cmwCtx, cmwMsg, cmwRet, cmwErr, rtCalls, rtCtx, rtMsg, rtRet, rtErr, transmissions, dials, lastErrRetryable, connBroken
+//@   ghostmod cmwCalls, cmwSelf, cmwNext, cmwCtx, cmwMsg, cmwRet, cmwErr, rtCalls, rtCtx, rtMsg, rtRet, rtErr, transmissions, dials, lastErrRetryable, connBroken, connClosed
 //@   ghost sentVersion = old(msg.Header.ProtocolVersion)
 //@   modifies c.conn
 
@@ -86,7 +90,7 @@ package kmipclient
 //@   ensures old(c.version) == nil && ite(len(c.middlewares) == 0, rtErr, cmwErr) == nil && discovered(lastResp(c)) && (exists k int :: 0 <= k && k < len(discoverPl(lastResp(c)).ProtocolVersion) && contains(c.supportedVersions, discoverPl(lastResp(c)).ProtocolVersion[k])) ==> r0 == nil
 //@   ensures old(c.version) == nil && (ite(len(c.middlewares) == 0, rtErr, cmwErr) == nil) && noDiscovery(lastResp(c)) ==> ite(contains(c.supportedVersions, kmip.V1_0), r0 == nil && *c.version == kmip.V1_0, r0 != nil)
 //@   modifies c.version, c.conn
-//@   ghostmod cmwCalls, cmwSelf, cmwNext, cmwCtx, cmwMsg, cmwRet, cmwErr, rtCalls, rtCtx, rtMsg, rtRet, rtErr, transmissions, dials, lastErrRetryable, connBroken
+//@   ghostmod cmwCalls, cmwSelf, cmwNext, cmwCtx, cmwMsg, cmwRet, cmwErr, rtCalls, rtCtx, rtMsg, rtRet, rtErr, transmissions, dials, lastErrRetryable, connBroken, connClosed
 //@   loop 0 invariant -1 <= rangeindex && rangeindex < len(pl.ProtocolVersion)
 //@   loop 0 invariant best != nil ==> contains(c.supportedVersions, *best) && contains(pl.ProtocolVersion, *best)
 //@   loop 0 invariant forall k int :: 0 <= k && k <= rangeindex && contains(c.supportedVersions, pl.ProtocolVersion[k]) ==> best != nil && verLE(pl.ProtocolVersion[k], *best)
@@ -106,7 +110,7 @@ package kmipclient
 //@   ensures r1 == nil ==> len(r0) == len(payloads) && lastResp(c) != nil && int(lastResp(c).Header.BatchCount) == len(payloads) && r0 == lastResp(c).BatchItem
 //@   ensures ite(len(c.middlewares) == 0, rtErr, cmwErr) != nil ==> r1 != nil
 //@   ensures transportErr(c) == nil && counted(lastResp(c), len(payloads)) ==> r1 == nil
-//@   ghostmod cmwCalls, cmwSelf, cmwNext, cmwCtx, cmwMsg, cmwRet, cmwErr, rtCalls, rtCtx, rtMsg, rtRet, rtErr, sentVersion, transmissions, dials, lastErrRetryable, connBroken
+//@   ghostmod cmwCalls, cmwSelf, cmwNext, cmwCtx, cmwMsg, cmwRet, cmwErr, rtCalls, rtCtx, rtMsg, rtRet, rtErr, sentVersion, transmissions, dials, lastErrRetryable, connBroken, connClosed
 //@   loop 0 invariant -1 <= rangeindex && rangeindex < len(opts) && msg.Header.ProtocolVersion == *c.version && len(msg.BatchItem) == len(payloads)
 
 //@ func (*Client).Batch
@@ -120,7 +124,7 @@ package kmipclient
 //@   ensures transportErr(c) == nil && counted(lastResp(c), 1) && lastResp(c).BatchItem[0].ResultStatus != kmip.ResultStatusSuccess ==> r1 != nil
 //@   ensures transportErr(c) == nil && counted(lastResp(c), 1) && lastResp(c).BatchItem[0].ResultStatus != kmip.ResultStatusSuccess ==> r1 == itemErrRet
 //@   ensures transportErr(c) == nil && counted(lastResp(c), 1) && lastResp(c).BatchItem[0].ResultStatus != kmip.ResultStatusSuccess ==> itemErrStatus == lastResp(c).BatchItem[0].ResultStatus && itemErrReason == lastResp(c).BatchItem[0].ResultReason && itemErrMsg == lastResp(c).BatchItem[0].ResultMessage
-//@   ghostmod cmwCalls, cmwSelf, cmwNext, cmwCtx, cmwMsg, cmwRet, cmwErr, rtCalls, rtCtx, rtMsg, rtRet, rtErr, transmissions, dials, lastErrRetryable, connBroken, itemErrRet, itemErrStatus, itemErrReason, itemErrMsg
+//@   ghostmod cmwCalls, cmwSelf, cmwNext, cmwCtx, cmwMsg, cmwRet, cmwErr, rtCalls, rtCtx, rtMsg, rtRet, rtErr, transmissions, dials, lastErrRetryable, connBroken, connClosed, itemErrRet, itemErrStatus, itemErrReason, itemErrMsg
 
 // a batch result is unwrapped to an error exactly when one of its items failed
 //@ func (BatchResult).Unwrap
@@ -137,7 +141,7 @@ package kmipclient
 // every instantiation Executor[Req, Resp]: a nil error comes with a payload of the response type
 //@ func (Executor[Req, Resp]).ExecContext
 //@   requires clientOK(ex.client) && ex.client.version != nil
-//@   ghostmod cmwCalls, cmwSelf, cmwNext, cmwCtx, cmwMsg, cmwRet, cmwErr, rtCalls, rtCtx, rtMsg, rtRet, rtErr, transmissions, dials, lastErrRetryable, connBroken, itemErrRet, itemErrStatus, itemErrReason, itemErrMsg
+//@   ghostmod cmwCalls, cmwSelf, cmwNext, cmwCtx, cmwMsg, cmwRet, cmwErr, rtCalls, rtCtx, rtMsg, rtRet, rtErr, transmissions, dials, lastErrRetryable, connBroken, connClosed, itemErrRet, itemErrStatus, itemErrReason, itemErrMsg
 
 // ---------------------------------------------------------------------------
 // connection faults, sequential clauses (C11)
@@ -158,22 +162,30 @@ package kmipclient
 //@   requires c != nil && lockHeld == 1
 //@   ensures r1 == nil ==> r0 != nil
 //@   ensures old(connBroken) ==> r1 != nil && connBroken
+//@   ensures connClosed ==> r1 != nil && !erris(r1, io.EOF) && !erris(r1, io.ErrClosedPipe)
 //@   pure
 //@   ghostmod connBroken
 //@   ghost transmissions = old(transmissions) + 1
 //@   ghost lastErrRetryable = erris(r1, io.EOF) || erris(r1, io.ErrClosedPipe)
 
+// Close marks the connection closed on every path (verified; the teardown itself is the trusted terminate)
 //@ func (*conn).Close
+//@   requires c != nil
+//@   ensures c.closed.v != 0
+//@   modifies c.closed.v
+//@   ghost connBroken = false
+//@   ghost connClosed = true
+
+//@ func (*conn).terminate
 //@   trusted
 //@   requires c != nil
 //@   pure
-//@   ghost connBroken = false
 
 // reads the connection's own state (atomic flag, context): true exactly for a connection ended by a fault
 //@ func (*conn).broken
 //@   trusted
 //@   requires c != nil
-//@   ensures r0 == connBroken
+//@   ensures r0 == (connBroken && !connClosed)
 //@   pure
 
 //@ func newConn
@@ -181,6 +193,7 @@ package kmipclient
 //@   ensures r0 != nil && isnew(r0)
 //@   pure
 //@   ghost connBroken = false
+//@   ghost connClosed = false
 
 //@ functype kmipclient.DialerFunc
 //@   params ctx
@@ -189,21 +202,24 @@ package kmipclient
 
 //@ func (*Client).reconnect
 //@   requires c != nil && c.dialer != nil && (c.conn == nil || lastErrRetryable || connBroken)
-//@   ensures r0 == nil ==> c.conn != nil && !connBroken
+//@   ensures r0 == nil ==> c.conn != nil && !connBroken && !connClosed
 //@   ensures r0 != nil ==> c.conn == nil
 //@   modifies c.conn
-//@   ghostmod connBroken
+//@   ghostmod connBroken, connClosed
 //@   ghost dials = old(dials) + 1
 
 //@ func (*Client).doRountrip
-//@   requires c != nil && c.lock != nil && c.dialer != nil && lockHeld == 0
+//@   requires c != nil && c.lock != nil && c.dialer != nil && lockHeld == 0 && closedInv(c)
+//@   ensures closedInv(c) && clientClosed == old(clientClosed)
+//@   ensures old(clientClosed) ==> r1 != nil && dials == old(dials)
+//@   ensures c.conn != nil && connClosed ==> old(c.conn) == c.conn && old(connClosed)
 //@   ensures transmissions-old(transmissions) >= 0 && transmissions-old(transmissions) <= 4
 //@   ensures dials-old(dials) >= 0 && dials-old(dials) <= 4
 //@   ensures lockHeld == 0
 //@   ensures r1 == nil ==> r0 != nil
 //@   ensures old(c.conn) != nil && old(connBroken) ==> dials-old(dials) >= 1
 //@   modifies c.conn
-//@   ghostmod transmissions, dials, lastErrRetryable, connBroken
+//@   ghostmod transmissions, dials, lastErrRetryable, connBroken, connClosed
 //@   ghost rtCalls = old(rtCalls) + 1
 //@   ghost rtCtx = ctx
 //@   ghost rtMsg = msg
@@ -212,7 +228,10 @@ package kmipclient
 //@   loop 0 invariant 0 <= retry && retry <= 3 && lockHeld == 1 && c.conn != nil
 //@   loop 0 invariant transmissions-old(transmissions) == 3-retry && dials-old(dials) >= 0 && dials-old(dials) <= 4-retry
 //@   loop 0 invariant old(c.conn) != nil && old(connBroken) ==> dials-old(dials) >= 1
-//@   loop 0 ghostmod transmissions, dials, lastErrRetryable, connBroken
+//@   loop 0 ghostmod transmissions, dials, lastErrRetryable, connBroken, connClosed
 
 //@ func (*Client).Close
 //@   requires c != nil
+//@   ensures closedInv(c)
+//@   ghost clientClosed = true
+//@   ghostmod connBroken, connClosed
